@@ -23,7 +23,7 @@ RULE = ('frames with 1-6 locals drawn from a sharing-heavy generator (same objec
         'default or (calibrated) small enough to be hit; non-trivial = snapshot delivered and the frame contains '
         'sharing, a cycle or a watch; distinct by canonical case')
 ASSUMPTIONS = ['identity of watch temporaries cannot be compared (they are freed); their type/text is compared instead']
-REQUIRE = {'capture_snapshots': 60, 'snapshots_checked': 300, 'references_resolved': 3000, 'shared_objects_seen': 100, 'cycles_seen': 50,
+REQUIRE = {'large_watch_followed_by_watches_on_its_parts': 40, 'capture_snapshots': 60, 'snapshots_checked': 300, 'references_resolved': 3000, 'shared_objects_seen': 100, 'cycles_seen': 50,
            'temp_watches': 200, 'budget_hit_cases': 10, 'locals_of_locals_cases': 10,
            'meetings_inside_the_collector': 15}
 
@@ -85,6 +85,11 @@ def case_dedup(seed, out, spec, wd):
         for _ in range(r.pick([0, 1, 2, 4, 8])):
             t = r.pick(TEMP_WATCHES + REAL_WATCHES + REAL_WATCHES)
             wl.append(t.format(a=names[0], b=names[-1]))
+    big_watch = r.chance(0.12)
+    if big_watch:
+        # a watch on a large structure that is not in the frame (a registry, a cache: some two hundred values), followed
+        # by watches on parts of it: whatever becomes of the large one, the later ones refer to entries that exist
+        wl = ['BIG'] + r.sample(['BIG[2]', 'BIG[2][1]', 'BIG[-1][0]', '[BIG[1], BIG[1][2]]', 'BIG[0][0][1]'], r.randrange(1, 4)) + wl[:2]
     nact = r.pick([1, 1, 2])
     case = FrameCase(wd, names, values)
     if special == 'locals_of_locals':
@@ -93,6 +98,8 @@ def case_dedup(seed, out, spec, wd):
             f.write(src)
         case.mod = hostframe.load(case.path)
         case.line = hostframe.markers(case.path)['hit']
+    if big_watch:
+        case.mod.BIG = [[[i * 100 + j * 10 + k + 1000 for k in range(3)] for j in range(6)] for i in range(8)]
     config = {'watches': list(wl), 'frame_type': r.pick(['single_frame', 'all_frame'])}
     if budget is not None:
         config['MAX_VARIABLES'] = budget
@@ -176,6 +183,8 @@ def case_dedup(seed, out, spec, wd):
     out.count('snapshots_checked', st['snaps'])
     out.count('references_resolved', st['refs'])
     out.count('temp_watches', st['temp'])
+    if big_watch and st['snaps']:
+        out.count('large_watch_followed_by_watches_on_its_parts')
     if 'shared' in gg.kinds:
         out.count('shared_objects_seen')
     if 'cycle_self' in gg.kinds or 'cycle_mutual' in gg.kinds or special != 'none':
